@@ -227,6 +227,13 @@ class GrpcShim:
     return _Ready()
 
 
+def _clear_caches(module):
+  for name in dir(module):
+    f = getattr(module, name)
+    if callable(f) and hasattr(f, 'cache_clear'):
+      f.cache_clear()
+
+
 @contextlib.contextmanager
 def installed(net):
   """Points stubs_util / vizier_server at the simulated network."""
@@ -242,7 +249,7 @@ def installed(net):
   vizier_server.portpicker = types.SimpleNamespace(pick_unused_port=net.pick_port)
   stubs_util.create_vizier_server_stub.cache_clear()
   stubs_util.create_pythia_server_stub.cache_clear()
-  vizier_client._create_local_vizier_servicer.cache_clear()  # pylint: disable=protected-access
+  _clear_caches(vizier_client)
   try:
     yield net
   finally:
@@ -250,4 +257,4 @@ def installed(net):
       setattr(mod, name, val)
     stubs_util.create_vizier_server_stub.cache_clear()
     stubs_util.create_pythia_server_stub.cache_clear()
-    vizier_client._create_local_vizier_servicer.cache_clear()  # pylint: disable=protected-access
+    _clear_caches(vizier_client)
